@@ -143,8 +143,12 @@ def _item_width(it):
 def _row_visible(items):
     """does the row still show a visible character after backspaces / replacements?"""
     cells = []
+    prev = None
     for it in items:
         k = it[0]
+        if k in ("sp", "mid") and it == prev:
+            continue        # the same control code twice in a row is one (doubled) code
+        prev = it
         if k == "c":
             cells += list(it[1])
         elif k == "c1":
